@@ -768,6 +768,11 @@ namespace Pistache::Http
 
     std::streamsize ResponseStream::write(const char* data, std::streamsize sz)
     {
+        // A chunk of size zero is the last-chunk marker: writing it here would
+        // end the body before the chunks that follow.
+        if (sz <= 0)
+            return 0;
+
         std::ostream os(&buf_);
         os << std::hex << sz << crlf;
         os.write(data, sz);
